@@ -169,151 +169,167 @@ metadata
 string ; Z9_ = u16
 ;  }
 ")).
-Eval vm_compute in ("<<<M1324>>>" ++ check (runes_of_ascii "// top
-options
-    // c0
-{ LittleEndian
-    // c2
-= false
-    // c4
-;
-    // c5
-StringPrefixLenType
-    // c6
+Eval vm_compute in ("<<<M1898>>>" ++ check (runes_of_ascii "  MetaData	len {
+i8
+_x 
+        //	t
+      `` ,  zchar[  00]
+tag 
+,
+
+roots
+
+    u
+
+    // `tick` ""quote"" 'q'
+    ,
+
+    uint16  repeatCount, 
+msg_type tag ,
+    } packet x_y_z
+
+{ metadata
+{ i8i8
+
+chars 
+,
+	i64	chars
+,
+	}
+
+    ,	repeat 
+u16 asx 
+    // a // b
+    // a // b
+	,
+}
+packet 
+u8x
+	{@lengthOf(
+	BodyLength
+
+) @leftPad
+	( 
+    // a // b
+	  //
+  )
+
+    float  
+  /// triple
+
+	`
+`  ,
+    @calculatedFrom(
+""// no comment""	) float32  // " ++ [128512]%N ++ runes_of_ascii " emoji
+    chars	`// not a comment`
+    ,
+uint32  u128
+
+    ,@tag(
+0 
+)int16 tag ,
+leftPad	msg_type
+    ,// trailing space 
+  pack
+`tab	here` 
+, @lengthOf(
+
+repeatCount 
+// c
+		// c
+	) 
+zchar[
+4294967296
+
+    ]
+
+    len
+	,
+
+    i32	packetx  `tab	here`, calculatedFrom,metadata
+@calculatedFrom( ""// no comment"" )
+
+,
+
+    } options  {	// trailing space 
+	options1
+	= 
+42
+
+    ; i64_ 
+  // a // b
+  = char[]
+	falsey
+= 
+    // packet A { u8 x, }
+  //	t
+42 // a // b
+    Packet 
 =
-    // c7
-u8
-    // c8
-; // c9
-ArrayPrefixLenType // c10
-= // c11a
-  // c11b
-u64
-    // c12
-; // c13a
-  // c13b
-FixedStringPadFromLeft
-    // c14
-= false ;
-    // c17
-FixedStringPadChar // c18a
-  // c18b
-=
-    // c19
-' ' // c20a
-  // c20b
-; }
-    // c22
-packet
-    // c23
-Reject // c24a
-  // c24b
-{ // c25a
-  // c25b
-repeat char[ 4 ] // c29a
-  // c29b
-seqNo // c30
-, // c31
-string // c32
-Px
-    // c33
-,
-    // c34
-} root packet Trade // c38a
-  // c38b
-{ // c39a
-  // c39b
-@rightPad ( // c41
-'0' // c42
-)
-    // c43
-char[
-    // c44
-2 // c45
-] msgKind // c47
-, // c48
-repeat
-    // c49
-f64
-    // c50
-price // c51a
-  // c51b
-, InAcct79
-    // c53
+
+true 
+;  }
+
+")).
+Eval vm_compute in ("<<<M196>>>" ++ check (runes_of_ascii "root  packet u { match //x
+T as body// c
 {
-    // c54
-repeat // c55a
-  // c55b
-Reject
-    // c56
+[
+""a\""b""
+    , 3 ] :
+stringy  ""a	b"" : charz // a // b
 ,
-    // c57
-zchar[ // c58a
-  // c58b
-7 // c59
-] // c60a
-  // c60b
-OrderId
-    // c61
+    10:  lengthOf// " ++ [128512]%N ++ runes_of_ascii " emoji
+, ""CRC32"" : falsey
 ,
-    // c62
-} // c63
-, // c64
-Reject // c65a
-  // c65b
-, // c66
-} ")).
-Eval vm_compute in ("<<<M107>>>" ++ check (runes_of_ascii "packet falsey { i64_ ,	charz  {
-match Packet  as Pad { ""\n"" :Packet
-    , ""// no comment"" // " ++ [128512]%N ++ runes_of_ascii " emoji
-:
-f32a// `tick` ""quote"" 'q'
-, [
-    /// triple
-    3  ,4294967296,
-    10 ,//
-7 , 10	]
-: u
-, // trailing space 
-""`tick`"": u8x
-,
-[ 7 , ""it's"" ]:Packet, 0 : len
-    //
-    , }
-    , }, /// triple
-@lengthOf(	f32a) char[ 3 ]options1
-    @lengthOf(
-Pad)
-, zchar[ 0123456789 ]// trailing space 
-T ``
-,
-} packet
-Pad
-{
+    0123456789 : _x ,
+    } , body @lengthOf( i64_ )
+, u64 chars
+`u8 x,` ,T {i64_ string_,
+    u32 metadata , zchar[ 1
+]Z9_,}
     // c
-    o roots `{ , }` // " ++ [128512]%N ++ runes_of_ascii " emoji
-, }packet f32a {
-_x//
-@calculatedFrom(	""x y"") //x
-,@tag( 65535
-) //	t
-char pack @lengthOf( zchar  ) ,repeat //
-int64 falsey  ,repeat len {match A
-    as rootA {[ 42,  ""\n"" ]:
-Z9_ , }
-,repeat i16
-A , repeat zchar[ 65535 ] tag `
-` ,
-f64 float
-    @lengthOf( f32a ) ``  ,
-// `tick` ""quote"" 'q'
+    ,@calculatedFrom( ""a\\"" ) rootA // " ++ [128512]%N ++ runes_of_ascii " emoji
+x_y_z
+`u8 x,` ,
+    zchar[ 007 ]body @calculatedFrom(
+""\n""
+) ,
+    @leftPad (
+'0') @rightPad
+    ( '0' )
+@calculatedFrom( """ ++ [233]%N ++ runes_of_ascii "t" ++ [233]%N ++ runes_of_ascii """
+    )	repeat uint64 A	, repeat  u8x
+    { match
+o
+as
+x
+    {
+    10	:charz
+// " ++ [27880; 37322]%N ++ runes_of_ascii "
+// " ++ [27880; 37322]%N ++ runes_of_ascii "
+,""a	b"": matchKey
+, ""x y""
+:
+    trueish ,[ """ ++ [233]%N ++ runes_of_ascii "t" ++ [233]%N ++ runes_of_ascii """ ] : zchar,""1"" : charz // " ++ [27880; 37322]%N ++ runes_of_ascii "
+,
+[ ""a\""b"" ,
+""abc""
+, ""a\\"", ""abc"" ,
 // packet A { u8 x, }
-} , x
-    u8x
-, @tag(  42	) repeat As Packet	, @lengthOf( Pad
-    )repeat
-    f64 rootA ,// @lengthOf(
-}")).
+// " ++ [128512]%N ++ runes_of_ascii " emoji
+""""
+// packet A { u8 x, }
+/// triple
+] : u8x, } ,	},repeat falsey { rootA
+    tag ,
+    zchar[/// triple
+0 ] falsey ,  }
+    , charz a1 `{ , }`
+, } root
+packet /// triple
+Header{}
+")).
 Eval vm_compute in ("<<<M362>>>" ++ check (runes_of_ascii "MetaData len
 {i8 _x
     //	t
@@ -540,68 +556,28 @@ tail // c39a
     // c40
 } // c41
 ")).
-Eval vm_compute in ("<<<M1235>>>" ++ check (runes_of_ascii "// top
-options
-    // c0
-{
-    // c1
-f32a
-    // c2
-=
-    // c3
-0
-    // c4
-}
-    // c5
-packet
-    // c6
-trueish
-    // c7
-{
-    // c8
-}
-    // c9
-MetaData
-    // c10
-_x
-    // c11
-{
-    // c12
-char[
-    // c13
-0123456789
-    // c14
-]
-    // c15
-zchar
-    // c16
-,
-    // c17
-string
-    // c18
-crc
-    // c19
-,
-    // c20
-char[
-    // c21
-1
-    // c22
-]
-    // c23
-options1
-    // c24
-,
-    // c25
-uint8
-    // c26
-repeatCount
-    // c27
-,
-    // c28
-}
-    // c29
-")).
+Eval vm_compute in ("<<<M1769>>>" ++ check (runes_of_ascii "packet Logon {
+    repeatCount {
+        BodyLength `crlf
+        line`,
+    },
+    zchar a1 `u8 x,`,
+    match Foo as Foo {
+        ""\n"" : i8i8,
+        [""abc"", ""CRC32""] : crc,
+        [
+            3, 42, 1, 255, ""x y"",
+            ""`tick`"", ""a\""b"", ""CRC32""
+        ] : repeatCount,
+        [
+            1, 007, 007, 7, 255,
+            ""\n"", ""// no comment""
+        ] : uint8x,
+        00 : f32a,
+    },
+    // a // b
+    uint16 Pad @lengthOf(uint8x) `doc`,
+}")).
 Eval vm_compute in ("<<<M1493>>>" ++ check (runes_of_ascii "MetaData float {int16 
   // c
   // " ++ [128512]%N ++ runes_of_ascii " emoji
@@ -699,50 +675,23 @@ matchKey , 10 :
     // " ++ [27880; 37322]%N ++ runes_of_ascii "
     packetx `a\` ,}
 ")).
-Eval vm_compute in ("<<<M1799>>>" ++ check (runes_of_ascii "  options{ LittleEndian
-	=
-    true;	} packet
-
-Logon
-    {	u8 x 
-,
-
-    }
-
-packet
-
-Logout {
-
-u16
-reason,  }root  packet
-Frame
-
-    {
-    i8
-	Kind
-,i8 
-Kind2
-, match
-Kind
-as  Body{  1
-	: 
-Logon ,[2 ,
-3 ,4 
-] :
-Logout
-,	100: Logon	,
-
-}
-    ,
-	match
-Kind2 as Trailer{ 0
-:
-Logout
-
-,
-
-    }
-, }")).
+Eval vm_compute in ("<<<M81>>>" ++ check (runes_of_ascii "root packet o {
+} MetaData uint8x
+    { int64 rootA  ,}
+    MetaData
+As{i32 // packet A { u8 x, }
+chars,	}packet Z9_// trailing space 
+{
+@leftPad( )char[]	x_y_z,} packet tag {	@leftPad(
+// " ++ [128512]%N ++ runes_of_ascii " emoji
+// " ++ [27880; 37322]%N ++ runes_of_ascii "
+' '
+    )
+zchar[ 0 // `tick` ""quote"" 'q'
+] rootA @calculatedFrom(
+    ""a\\"" )
+    `tab	here`
+,}")).
 Eval vm_compute in ("<<<M94>>>" ++ check (runes_of_ascii "MetaData chars{ uint64	A, msg_type asx
     // c
     , Z9_  a1,
